@@ -368,6 +368,32 @@ fn build(e: &Value, kind: &str) -> DynOp {
                 other => panic!("map over a vector applied to {other:?}"),
             }))
         }
+        // a repetition DIRECTLY around a `then` / `and` of the repository (no harness closure in between: the
+        // repository's combinators see each other's concrete types, as they do in a user's pipeline)
+        "rep" if e["a"]["op"] == "then" => {
+            let a = build(&e["a"]["a"], kind).then(build(&e["a"]["b"], kind));
+            macro_rules! direct {
+                ($t:expr) => {{ let t = $t; DynOp(Box::new(move |x, mut r| t.apply(x, &mut r).map(|v| Val::L(v.to_vec())).map_err(|e| step_of(&e, "bin")))) }};
+            }
+            match u(&e["n"]) {
+                0 => direct!(a.apply_n_times::<0>()),
+                1 => direct!(a.apply_n_times::<1>()),
+                2 => direct!(a.apply_twice()),
+                _ => direct!(a.apply_n_times::<3>()),
+            }
+        }
+        "rep" if e["a"]["op"] == "and" => {
+            let a = build(&e["a"]["a"], kind).and(build(&e["a"]["b"], kind));
+            macro_rules! direct {
+                ($t:expr) => {{ let t = $t; DynOp(Box::new(move |x, mut r| t.apply(x, &mut r).map(|v| Val::L(v.into_iter().map(|(a, b)| pair(a, b)).collect())).map_err(|e| step_of(&e, "bin")))) }};
+            }
+            match u(&e["n"]) {
+                0 => direct!(a.apply_n_times::<0>()),
+                1 => direct!(a.apply_n_times::<1>()),
+                2 => direct!(a.apply_twice()),
+                _ => direct!(a.apply_n_times::<3>()),
+            }
+        }
         "rep" => {
             let a = build(&e["a"], kind);
             match u(&e["n"]) {
